@@ -398,7 +398,7 @@ func main() {
 						mu.Unlock()
 						continue
 					}
-					if pre := filepath.Join(scratch, fmt.Sprintf("pre-%s-%d.json", prop, lastBegin)); !finished && fileExists(pre) && !strings.Contains(so, "watchdog") {
+					if pre := filepath.Join(scratch, fmt.Sprintf("pre-%s-%d.json", prop, lastBegin)); !finished && fileExists(pre) && !strings.Contains(so, "watchdog") && (prop == "C13" || emulatorDeath(so)) {
 						// the process died inside a run whose plan is on disk: a candidate process-killer
 						msg := "the worker process died while executing this run:\n" + tail(so, 25)
 						recs = append(recs, runRecord{Seed: lastBegin, End: "process-death", Viol: &violation{Oracle: "process-death", Fp: "process-death:" + deathClass(so), Msg: msg}, Replay: pre})
@@ -742,6 +742,32 @@ func fileExists(p string) bool {
 }
 
 // deathClass: first line of the runtime's report (panic / fatal error), shortened.
+// emulatorDeath: the process died of a panic or fatal runtime error whose
+// innermost frame outside the runtime and sync packages is emulator code.
+// Anything else (the harness itself, the test framework) is harness trouble.
+func emulatorDeath(out string) bool {
+	lines := strings.Split(out, "\n")
+	for i, ln := range lines {
+		if !strings.HasPrefix(ln, "goroutine ") || !strings.Contains(ln, "[running") {
+			continue
+		}
+		for _, f := range lines[i+1:] {
+			if f == "" {
+				break
+			}
+			if strings.HasPrefix(f, "\t") || strings.HasPrefix(f, " ") {
+				continue // file:line of the frame above
+			}
+			if strings.HasPrefix(f, "runtime.") || strings.HasPrefix(f, "sync.") || strings.HasPrefix(f, "sync/") || strings.HasPrefix(f, "internal/") || strings.HasPrefix(f, "panic(") {
+				continue
+			}
+			return strings.HasPrefix(f, "github.com/jimsnab/go-redisemu.")
+		}
+		return false
+	}
+	return false
+}
+
 func deathClass(out string) string {
 	for _, ln := range strings.Split(out, "\n") {
 		if strings.HasPrefix(ln, "panic:") || strings.HasPrefix(ln, "fatal error:") || strings.HasPrefix(ln, "runtime:") {
